@@ -379,7 +379,7 @@ mon_C07_payload.applies = lambda c: not c["plans"]
 def mon_plans(lines, c, want):
     """C08 / C09 / C10: tracks the plan as a list, the latched reports and planExists from the trace.
     Needs logging on (plan-issued requests are visible as transition records not followed by a 'did change')."""
-    cap = c["cap"]
+    cap = c["cap"] if c["cap"] > 0 else c["n"]          # cap = 0: no TaskCapacityN<>, the library uses the number of states
     # plan-issued requests are visible only through the logger: it must be attached from construction on
     for l in lines:
         if l.kind == "api" and l.phase == "begin" and ((l.op == "construct" and l.args[0] != "1") or (l.op == "attachLogger" and l.args[0] != "1")):
